@@ -1,3 +1,3 @@
 (* Extract/D01v.v -- C01, views unit: text interpreter (see Model/ViewsDispatch.v). *)
 From PV Require Import Model.ViewsDispatch.
-Definition dispatch_line (l : string) : string := dispatch line01 l.
+Definition dispatch_line (l : string) : string := dispatch false line01 l.
